@@ -529,6 +529,19 @@ def run(ck):
     shared.truthy_zero(ck, [PDB, GRO, 'vermouth/truncating_formatter.py'])
     shared.pure_writer(ck, pdb, wfn, [wfn.args.args[0].arg])
     shared.pure_writer(ck, gro, gw, [gw.args.args[0].arg])
+    # CONECT reader: every partner listed on a record gets its bond (the writer lists each bond once, in either serial order)
+    dsc = ck.need(method(ck.index.mod('vermouth/pdb/pdb.py').cls('PDBParser'), '_do_single_conect'), 'PDBParser._do_single_conect vanished')
+    pdbm = ck.index.mod('vermouth/pdb/pdb.py')
+    ck.analysed(pdbm, dsc)
+    pl = [l for l in dsc.body if isinstance(l, ast.For) and u(l.iter) == 'conect_record[1:]']
+    ok = len(pl) == 1
+    if ok:
+        adds = stmts_with_env(dsc, lambda s_: isinstance(s_, ast.Expr) and call_attr(s_.value) == 'add_edge', stmts=pl[0].body)
+        ok = len(adds) == 1 and flow.valid(adds[0][1]) and [u(a) for a in adds[0][0].value.args[:2]] == ['atomidx0', 'atomidx']
+        skips = [n for n in pl[0].body if isinstance(n, (ast.If,)) and any(isinstance(x, (ast.Continue, ast.Break)) for x in ast.walk(n))]
+        ok = ok and not skips
+    ck.ob('PROV-conect-reader', pdbm.loc(dsc), ok, 'every atom listed after the first on a CONECT record is bonded to the first (only atoms that were not read are skipped); '
+          'the serial order of the two plays no part', key='PROV-conect-reader|every-partner')
     # reading back through the processors: by default nothing is filtered, and the settings reach the readers unchanged
     for rel_, cname, reader, extra in (('vermouth/processors/pdb_reader.py', 'PDBInput', 'read_pdb', ['modelidx']), ('vermouth/processors/gro_reader.py', 'GROInput', 'gro.read_gro', [])):
         pm = ck.index.mod(rel_)
